@@ -926,9 +926,26 @@ func (area) Execute(raw json.RawMessage) (term string, info *hcommon.Info, err e
 			if x == nil || o.Len < 1 || o.Len > 64 {
 				continue
 			}
-			x.put.cmd <- putCmd{read: int(o.Len)}
-			data := <-x.put.resp
+			var data []byte
+			died := false
+			select {
+			case x.put.cmd <- putCmd{read: int(o.Len)}:
+				select {
+				case data = <-x.put.resp:
+				case <-x.done:
+					died = true
+				}
+			case <-x.done:
+				died = true
+			}
 			if _, err = settle(x); err != nil {
+				break
+			}
+			if died {
+				// the read panicked inside the code under test
+				w.remove(x)
+				w.emit(run(x, g.App("RPutRead", g.N(o.Len))), "OPanic")
+				info.Outs["panic"]++
 				break
 			}
 			w.emit(run(x, g.App("RPutRead", g.N(o.Len))), g.App("OPutRead", bytesTerm(data)))
@@ -940,7 +957,10 @@ func (area) Execute(raw json.RawMessage) (term string, info *hcommon.Info, err e
 			if x == nil {
 				continue
 			}
-			x.put.cmd <- putCmd{end: true, ok: o.OK}
+			select {
+			case x.put.cmd <- putCmd{end: true, ok: o.OK}:
+			case <-x.done:
+			}
 			var at string
 			if at, err = settle(x); err != nil {
 				break
@@ -1079,7 +1099,10 @@ func (w *world) drain() {
 		for _, x := range append([]*worker(nil), w.workers...) {
 			switch x.at {
 			case atPut:
-				x.put.cmd <- putCmd{end: true, ok: true}
+				select {
+				case x.put.cmd <- putCmd{end: true, ok: true}:
+				case <-x.done:
+				}
 				settle(x)
 				w.remove(x)
 			case "handle":
